@@ -74,17 +74,18 @@ Definition excluded (n : str) : bool := streqb n (unbs "ANYHL7SEGMENT") || streq
 
 (* no field of the table is called <SEG>_i beyond the fields the segment defines *)
 Definition no_extra_fields (sn : str) (n : nat) : bool :=
-  forallb (fun p : str * sref => negb (bstarts (sn ++ unbs "_") (fst p)) ||
-                                 smem (fst p) (map (name_idx sn) (seq 1 n))) (t_fields t).
+  let names := map (name_idx sn) (seq 1 n) in
+  let pre := sn ++ unbs "_" in
+  forallb (fun p : str * sref => if bstarts pre (fst p) then smem (fst p) names else true) (t_fields t).
 
 Lemma no_extra_fields_sound sn n i : no_extra_fields sn n = true -> n < i ->
   slookup (name_idx sn i) (t_fields t) = None.
 Proof.
   intros H Hi. apply slookup_none. intros Hin. apply in_map_iff in Hin. destruct Hin as [[k v] [E Hin]].
-  cbn [fst] in E. subst k. unfold no_extra_fields in H. rewrite forallb_forall in H. specialize (H _ Hin).
+  cbn [fst] in E. subst k. unfold no_extra_fields in H. cbv zeta in H. rewrite forallb_forall in H. specialize (H _ Hin).
   cbn [fst] in H. assert (B : bstarts (sn ++ unbs "_") (name_idx sn i) = true).
   { unfold name_idx. rewrite app_assoc. apply starts_with_app. }
-  rewrite B in H. cbn [negb orb] in H. apply smem_In in H. apply in_map_iff in H. destruct H as [j [Ej Hj]].
+  rewrite B in H. apply smem_In in H. apply in_map_iff in H. destruct H as [j [Ej Hj]].
   apply name_idx_inj in Ej. subst j. apply in_seq in Hj. lia.
 Qed.
 
@@ -191,7 +192,7 @@ End Checks.
 
 (* ---- all shipped versions ---- *)
 Lemma all_seg_tables_ok : forallb (fun p => seg_tables_ok (snd p)) all_tables = true.
-Proof. vm_compute. reflexivity. Qed.
+Proof. vm_cast_no_check (eq_refl true). Qed.
 
 Lemma shipped_segment_ok v t sn r : tables_of v = Some t -> In (sn, r) (t_segments t) ->
   sn <> unbs "ANYHL7SEGMENT" -> sn <> unbs "MSH" ->
